@@ -1,0 +1,54 @@
+//go:build verif
+
+package type3
+
+// Verification hooks (build tag "verif" only). Nothing here is compiled into a
+// normal build.
+
+// VerifSnapshot returns copies of the attester's per-client binding maps:
+// anonymous origin ID -> anonymous issuer origin ID, and
+// anonymous issuer origin ID -> anonymous origin ID (both hex encoded).
+func (s *ClientState) VerifSnapshot() (originIndices, clientIndices map[string]string) {
+	originIndices = make(map[string]string, len(s.originIndices))
+	for k, v := range s.originIndices {
+		originIndices[k] = v
+	}
+	clientIndices = make(map[string]string, len(s.clientIndices))
+	for k, v := range s.clientIndices {
+		clientIndices[k] = v
+	}
+	return
+}
+
+// VerifInnerTokenRequest builds an InnerTokenRequest from its fields.
+func VerifInnerTokenRequest(tokenKeyID uint8, blindedMsg, paddedOrigin []byte) *InnerTokenRequest {
+	return &InnerTokenRequest{tokenKeyId: tokenKeyID, blindedMsg: blindedMsg, paddedOrigin: paddedOrigin}
+}
+
+// VerifFields returns the fields of an InnerTokenRequest.
+func (r *InnerTokenRequest) VerifFields() (tokenKeyID uint8, blindedMsg, paddedOrigin []byte) {
+	return r.tokenKeyId, r.blindedMsg, r.paddedOrigin
+}
+
+// VerifPadOriginName exposes padOriginName.
+func VerifPadOriginName(originName string) []byte { return padOriginName(originName) }
+
+// VerifUnpadOriginName exposes unpadOriginName.
+func VerifUnpadOriginName(padded []byte) string { return unpadOriginName(padded) }
+
+// VerifNewRateLimitedIssuerWithNameKey builds an issuer whose HPKE name key is
+// derived from the given seed, so a monitor can seal inner requests itself and
+// recompute what the issuer must decide.
+func VerifNewRateLimitedIssuerWithNameKey(issuer *RateLimitedIssuer, seed []byte) (*RateLimitedIssuer, error) {
+	nameKey, err := CreatePrivateEncapKeyFromSeed(seed)
+	if err != nil {
+		return nil, err
+	}
+	nameKey.id = issuer.nameKey.id
+	return &RateLimitedIssuer{
+		curve:           issuer.curve,
+		nameKey:         nameKey,
+		tokenKey:        issuer.tokenKey,
+		originIndexKeys: issuer.originIndexKeys,
+	}, nil
+}
